@@ -87,7 +87,8 @@ void poll_abort();
 void faults_arm(unsigned kinds);     // bit 0: operator new, bit 1: GMP alloc, bit 2: abandon checkpoints
 void faults_disarm();
 bool fault_fired();
-long live_blocks();                  // ledger: live operator-new blocks + live GMP limb blocks
+long live_blocks();                  // ledger: live operator-new blocks + live GMP limb blocks allocated while the ledger is on
+void faults_ledger(bool on);         // start / stop counting (and faulting) the allocations of the code under test
 
 // ---- registration ------------------------------------------------------------
 struct Harness_Reg { Harness_Reg(const char* name, void (*fn)()); };
